@@ -24,7 +24,7 @@ func init() {
 		Assume: []string{"process-kill semantics: every completed system call survives (no power loss / page-cache loss is claimed by the property)", "goleveldb background goroutines have no work at these data volumes; their file operations are nevertheless excluded from images in progress by a read/write lock"},
 		Run:    runC08,
 	})
-	expectedProbes["C08"] = []string{"c08.crash_inside_request", "c08.families_recreated_after_restart", "c08.crash_boundary", "c08.clean_stop", "c08.crash_during_recovery", "c08.torn_write", "c08.inflight_applied", "c08.inflight_absent", "c08.crash_in_meta_write", "c08.crash_in_removeall", "c08.second_cycle", "c08.two_inflight", "c08.concurrent_admin_restart_equal"}
+	expectedProbes["C08"] = []string{"c08.crash_inside_request", "c08.families_recreated_after_restart", "c08.crash_aimed_at_io_point", "c08.crash_boundary", "c08.clean_stop", "c08.crash_during_recovery", "c08.torn_write", "c08.inflight_applied", "c08.inflight_absent", "c08.crash_in_meta_write", "c08.crash_in_removeall", "c08.second_cycle", "c08.two_inflight", "c08.concurrent_admin_restart_equal"}
 }
 
 type inflightOp struct {
@@ -336,13 +336,20 @@ func runC08(r *Run) {
 		s := r.NewSched()
 		s.Budget = 200000
 		crashAt := -1
+		crashAtIO := -1 // kill at the n-th step that finds a task parked inside file-system or engine I/O
+		ioSteps := 0
 		clean := false
 		if epoch < cycles {
 			switch {
-			case r.Tier == "thorough" && epoch == 0:
-				crashAt = (r.Index%64)*3 + fault.Intn(3)
+			case r.Tier == "thorough" && epoch == 0 && r.Index%2 == 0:
+				crashAt = (r.Index/2%64)*3 + fault.Intn(3)
 			default:
-				switch fault.Weighted([]int{6, 2, 1}) {
+				switch fault.Weighted([]int{3, 2, 1, 3}) {
+				case 3:
+					// the instrumented points inside metadata persistence, table clear/create and
+					// engine writes are few among all steps: aim at them directly
+					crashAtIO = 1 + fault.Intn(60)
+					crashAt = 0
 				case 0:
 					crashAt = fault.Intn(300)
 				case 1:
@@ -408,6 +415,15 @@ func runC08(r *Run) {
 				if t.state != tsDone && (strings.HasPrefix(t.point, "fs.") || strings.HasPrefix(t.point, "ldb.")) {
 					point = t.point
 				}
+			}
+			if crashAtIO > 0 {
+				if point == "" {
+					return
+				}
+				if ioSteps++; ioSteps < crashAtIO {
+					return
+				}
+				r.Probe("c08.crash_aimed_at_io_point")
 			}
 			takeImage(point)
 		}
